@@ -1374,6 +1374,32 @@ def run():
     for i in bad[:5]:
         ck.notes.append("LayerInfoBlock model/implementation differ on %r: impl %r" % (str(lbcases[i][0])[:400], lbcases[i][1]))
 
+    # ---- (c2) engine data: generated EngineData / EngineData2 trees (escapes inside UTF-16 strings, tags, grid floats,
+    #      nested lists and dicts) - implementation only, the tokenizer is not modelled
+    from psd_tools.psd import engine_data as _ED
+
+    for i in range(6000 if thorough else 400):
+        kls = [_ED.EngineData, _ED.EngineData2][i % 2]
+        x = F.g_engine_dict(rng, 0, kls)
+        try:
+            b = x.tobytes()
+        except Exception as e:
+            ck.fail("engine-data-write", {"engine_data": repr(x)[:600], "class": kls.__name__}, "raised %r" % e, "writable")
+            continue
+        ck.count("engine-data:" + kls.__name__)
+        ck.nontriv(("engine", h63_list(0, list(b))))
+        try:
+            y = kls.frombytes(b)
+            ok = (y == x)
+            same = ok and y.tobytes() == b
+        except Exception as e:
+            ok, same, y = False, False, e
+        if not ok:
+            ck.fail("engine-data-roundtrip", {"engine_data_bytes": list(b[:2000]), "class": kls.__name__},
+                    "raised %r" % y if isinstance(y, Exception) else "re-read != original", "X.frombytes(x.tobytes()) == x")
+        elif not same:
+            ck.fail("engine-data-rewrite", {"engine_data_bytes": list(b[:2000]), "class": kls.__name__}, "re-written bytes differ", "identical bytes")
+
     # ---- (b) fixtures: implementation reads and re-writes; the model reads the same bytes
     from psd_tools.psd import PSD
 
@@ -1534,8 +1560,13 @@ def run():
     not_covered = sorted(c for c in all_classes if c not in covered and c not in NESTED and c.split(".")[-1] not in modelled)
     nested_only = sorted(c for c in NESTED if c not in covered and c.split(".")[-1] not in modelled)
     ck.assumptions += [
-        "payloads of tagged blocks and image resources are opaque bytes in the model: the container theorems hold for any payload; "
-        "the leaf classes listed under oracle_only are exercised on the implementation only (fixture instances + constructed instances)",
+        "payloads of tagged blocks and image resources are opaque bytes in the container model: the container theorems hold for any payload; "
+        "the payload classes have their own models and theorems (modelled); the classes listed under oracle_only (engine data) are exercised "
+        "on the implementation only (fixture instances, constructed instances, generated EngineData trees)",
+        "engine data is opaque in the model: the EngineData value of a type tool descriptor is a RawData like any other; the twin run of "
+        "TypeToolObjectSetting switches EngineData.frombytes off so that the implementation keeps the raw bytes too",
+        "16.16 fixed-point numbers (HalftoneScreen, path records) and doubles/floats are carried as their integers / bit patterns: an "
+        "off-grid Python float is outside the model (the writer truncates it)",
         "charset step of pascal strings: wf demands dec(enc(name)) = name; the generator only emits such names and checks it on the Python codecs",
         "doubles are carried as 64-bit patterns; NaN excluded from generated MaskParameters (nan != nan in Python equality)",
         "equality is Python equality of the attrs structures after write() ran (write refreshes channel lengths in place)",
